@@ -297,7 +297,7 @@ def complete(c, t_list):
     return t, m
 
 
-def check_tree(c, t_list, v, stats=None):
+def check_tree(c, t_list, v):
     """clauses 1-3; v(sig, case, detail). Returns (m_list, label, nontrivial)"""
     from annet import implicit
     name = c["name"]
